@@ -135,8 +135,28 @@ BINDERS = ['S(k=)', 'S(k=)', 'A.k', 'A.globals.k', 'Let', 'S(k=,j=S.k)', 'Let(k=
 READERS = ['S.k', 'S.k', "S['k']", 'S.globals.k', 'S.u', 'S.j', 'S.j']
 
 
+def match_dict_case(rng):
+    """a match-dict whose KEY specs bind: a key's binding reaches its own value spec only — not the value spec of the entry
+    processed next, whatever the order of the target's entries"""
+    binder_key = rng.choice([['AssignScope', False, 'k'], ['Bind', [['k', ['T', 'T', []]]]]])
+    rd = ['Auto', ['Tuple', [['Coalesce', [['T', 'S', [['.', ['Str', 'k']]]]], ['Lit', 'MISSING'], None, None, None], ['Fn', ['probe', 1]]]]]
+    own = ['Auto', ['Tuple', [['Coalesce', [['T', 'S', [['.', ['Str', 'k']]]]], ['Lit', 'MISSING'], None, None, None], ['Fn', ['probe', 2]]]]]
+    entries = [[['Str', 'name'], rd], [binder_key, own]]
+    if rng.random() < 0.5:
+        entries.reverse()
+    items = [['id', 7], ['name', 'x']]
+    if rng.random() < 0.5:
+        items.reverse()
+    if rng.random() < 0.3:
+        items.append(['z', 1])
+    spec = ['Match', ['Dict', False, entries], None]
+    if rng.random() < 0.5:
+        spec = ['Tuple', [['Bind', [['k', ['Val', 'outer']]]], spec]]
+    return {'target': {'k': 'dict', 'od': False, 'id': 1, 'items': items}, 'spec': spec, 'scope': [], 'repeat': True}
+
+
 def generate(rng, tier):
-    out = []
+    out = [match_dict_case(rng) for _ in range(60 if tier == 'quick' else 400)]
     n = 1200 if tier == 'quick' else 8000
     for _ in range(n):
         c = Ctx(rng)
